@@ -1,5 +1,6 @@
 open Extracted
 open Driver_base
+open Drv_ssa
 
 (* ---- C20: delay queue op sequences ----
    queue <nrx> <ncols> <dt> <t0> ops...   ops: A time r amount | P | C | K | T t | B p sel nraw raw...  *)
@@ -46,13 +47,6 @@ let cmd_prop toks =
   hx (prop_eval fl pr (mode_of m) x p v t)
 
 (* ---- C01: interfaces: iface <plain|safe> <mode> <V> <t> <x list> <p list> nsp nrx S Sd props ---- *)
-let pop_simif r =
-  let (p, r) = pop_flist r in
-  let (nsp, r) = pop_int r in let (nrx, r) = pop_int r in
-  let (s, r) = pop_matrix nsp nrx r in let (sd, r) = pop_matrix nsp nrx r in
-  let (props, r) = pop_n pop_prop nrx r in
-  ({ si_props = props; si_S = s; si_Sd = sd; si_params = p; si_nspecies = nat_of_int nsp }, r)
-
 let cmd_iface toks =
   let (kind, r) = pop toks in let (m, r) = pop r in let (v, r) = pop_fl r in let (t, r) = pop_fl r in
   let (x, r) = pop_flist r in let (si, _) = pop_simif r in
@@ -141,6 +135,7 @@ let () =
           | "c03" -> cmd_c03 toks
           | "prior" -> cmd_prior toks
           | "sens" -> cmd_sens toks
+          | "sim" -> cmd_sim toks
           | "iface" -> cmd_iface toks
           | _ -> "ERR unknown command " ^ cmd)
           with e -> "ERR " ^ Printexc.to_string e in
